@@ -100,6 +100,13 @@ def uncompact_requests(run):
     for k, r, R in plans:
         cells = [gen.rand_cell(rng, r) for _ in range(k)]
         out.append((f"digest uncompact {compactgen.fmt(cells)} {R}", expected_digest(cells, R)))
+    if not run.quick:
+        # one cell expanded by 13 levels (6.7e7 results, 512 MiB): a quintant and a deeper cell in a non-canonical spelling
+        qn = spec.encode(1, rng.randrange(60), ())
+        out.append((f"digest uncompact {qn} 14", expected_digest([qn], 14)))
+        r = rng.randint(2, 16)
+        c = gen.rand_cell(rng, r)
+        out.append((f"digest uncompact {c | (1 << (2 * rng.randrange(0, (59 - 2 * r) // 2 + 1)))} {r + 13}", expected_digest([c], r + 13)))
     # mixed resolutions (4 coarse + 7 fine, and cells already at the target in between)
     for _ in range(2 if run.quick else 6):
         R = rng.randint(12, 20)
